@@ -8,7 +8,9 @@ package main
 // cfg: [t0 fallback recovery checkPeriod expr...]   (ns; expr in prefix form:
 //        0 x y = x && y | 1 x y = x || y | 2 op 0 tn td = NetworkErrorRatio() op tn/td
 //        | 2 op 1 a b c d tn td = ResponseCodeRatio(a,b,c,d) op tn/td | 2 op 2 k q tn td = LatencyAtQuantileMS(q/10) op tn
-//        with op 0 < 1 <= 2 > 3 >= 4 == 5 !=; td = 10000 for float literals, 1 for int literals)
+//        with op 0 < 1 <= 2 > 3 >= 4 == 5 !=; td = 10000 or 10000000 for float literals (4 or 7
+//        decimals; the 7-decimal ones sit one unit in the last place beside a ratio that few responses can produce),
+//        1 for int literals)
 // ops: [0 hint]                 Arrive        -> obs [0 pass | 1 fallback, state, #onTripped, #onStandby]
 //      [1 sel code hint lat..]  Complete the (sel mod n)-th oldest of the n in-flight requests with status code
 //                                             -> obs [state, #onTripped, #onStandby]
@@ -124,7 +126,7 @@ func decodeEx(l []int64) (*ex, []int64, bool) {
 			return nil, nil, false
 		}
 		e.tn, e.td = r[0], r[1]
-		if e.tn < 0 || (e.metric == 2 && e.td != 1) || (e.metric != 2 && e.td != 10000) {
+		if e.tn < 0 || (e.metric == 2 && e.td != 1) || (e.metric != 2 && e.td != 10000 && e.td != 10000000) {
 			return nil, nil, false
 		}
 		return e, r[2:], true
@@ -154,9 +156,9 @@ func (e *ex) show(parent int) string {
 	var s string
 	switch e.metric {
 	case 0:
-		s = fmt.Sprintf("NetworkErrorRatio() %s %d.%04d", opText[e.op], e.tn/10000, e.tn%10000)
+		s = fmt.Sprintf("NetworkErrorRatio() %s %s", opText[e.op], e.literal())
 	case 1:
-		s = fmt.Sprintf("ResponseCodeRatio(%d, %d, %d, %d) %s %d.%04d", e.a, e.b, e.c, e.d, opText[e.op], e.tn/10000, e.tn%10000)
+		s = fmt.Sprintf("ResponseCodeRatio(%d, %d, %d, %d) %s %s", e.a, e.b, e.c, e.d, opText[e.op], e.literal())
 	default:
 		s = fmt.Sprintf("LatencyAtQuantileMS(%d.%d) %s %d", e.q/10, e.q%10, opText[e.op], e.tn)
 	}
@@ -164,6 +166,13 @@ func (e *ex) show(parent int) string {
 		return "(" + s + ")"
 	}
 	return s
+}
+
+func (e *ex) literal() string {
+	if e.td == 10000000 {
+		return fmt.Sprintf("%d.%07d", e.tn/e.td, e.tn%e.td)
+	}
+	return fmt.Sprintf("%d.%04d", e.tn/10000, e.tn%10000)
 }
 
 func (e *ex) latencyAtoms(out []*ex) []*ex {
@@ -722,16 +731,25 @@ func genExpr(rng *rand.Rand, depth int, nlat *int64) *ex {
 		e.op = hlib.Pick(rng, 2, 3)
 	}
 	ratio := []int64{0, 1000, 2000, 2500, 3333, 5000, 5000, 6667, 7500, 9000, 10000, 15000}
+	// 7-decimal literals next to k/3, k/6, k/7, k/9 and 1/2: closer to the ratio than any comparison tolerance, not equal
+	near := []int64{3333333, 3333334, 6666666, 6666667, 1666667, 1428571, 1428572, 1111111, 4999999, 5000001, 2500001, 9999999}
+	fine := rng.Intn(5) == 0
+	pick := func() (int64, int64) {
+		if fine {
+			return near[rng.Intn(len(near))], 10000000
+		}
+		return ratio[rng.Intn(len(ratio))], 10000
+	}
 	switch r := rng.Intn(100); {
 	case r < 40:
 		e.metric = 0
-		e.tn, e.td = ratio[rng.Intn(len(ratio))], 10000
+		e.tn, e.td = pick()
 	case r < 85:
 		e.metric = 1
 		rs := [][4]int64{{500, 600, 0, 600}, {500, 600, 200, 300}, {400, 500, 200, 500}, {502, 505, 500, 600}, {200, 300, 0, 600}, {500, 600, 300, 400}}
 		p := rs[rng.Intn(len(rs))]
 		e.a, e.b, e.c, e.d = p[0], p[1], p[2], p[3]
-		e.tn, e.td = ratio[rng.Intn(len(ratio))], 10000
+		e.tn, e.td = pick()
 	default:
 		e.metric = 2
 		e.k = *nlat
